@@ -48,15 +48,18 @@ def show(prog):
     return sigs + "\n" + "\n".join(show_stmts(prog["stmts"]))
 
 
-def build(prog, reset_less_domain=False, extra_domains=()):
+def build(prog, reset_less_domain=False, extra_domains=(), define_domain=True, sigs=None, reset_less_signals=()):
     """Returns (module, sigs dict name->Signal (+ 'fsm:<name>' -> FSM objects), domains dict)."""
     m = Module()
-    sigs = {}
+    sigs = {} if sigs is None else sigs
     for n, (w, s, init, kind) in prog["signals"].items():
-        sigs[n] = Signal(Shape(w, s), name=n, init=init)
-    cd = ClockDomain("sync", reset_less=reset_less_domain)
-    m.domains.sync = cd
-    domains = {"sync": cd}
+        if n not in sigs:
+            sigs[n] = Signal(Shape(w, s), name=n, init=init, reset_less=n in reset_less_signals)
+    domains = {}
+    if define_domain:
+        cd = ClockDomain("sync", reset_less=reset_less_domain)
+        m.domains.sync = cd
+        domains = {"sync": cd}
     for d in extra_domains:
         domains[d] = ClockDomain(d)
         m.domains += domains[d]
